@@ -317,6 +317,31 @@ def shrink_bucket(mod, tier, seed, entry, bucket, n_cases, budget_s: float) -> t
     return case, msg
 
 
+def greedy_shrink(mod, case, msg, bucket, budget_s):
+    """Delete-one-element pass driven by the check's own shrink_candidates(case)."""
+    cands = getattr(mod, "shrink_candidates", None)
+    if cands is None:
+        return case, msg
+    _limit_worker_parent()
+    t0 = time.time()
+    improved = True
+    while improved and time.time() - t0 < budget_s:
+        improved = False
+        for c in cands(case):
+            if time.time() - t0 > budget_s:
+                break
+            try:
+                failures, herr = safe_evaluate(mod, c, Stats())
+            except BaseException:  # noqa
+                continue
+            hit = [f_ for f_ in failures if f_.bucket == bucket]
+            if hit and herr is None:
+                case, msg = c, hit[0].message
+                improved = True
+                break
+    return case, msg
+
+
 # --------------------------------------------------------------------------------------
 # top level
 # --------------------------------------------------------------------------------------
@@ -428,9 +453,13 @@ def generation_tier(ctx: RunCtx) -> None:
                 case, msg = shrink_bucket(mod, ctx.tier, ctx.seed, e, bucket, per, shrink_budget)
             except Exception:  # noqa
                 pass
+        try:
+            case, msg = greedy_shrink(mod, case, msg, bucket, 60 if ctx.tier == "quick" else 180)
+        except Exception:  # noqa
+            pass
         path = write_replay(mod.ID, bucket, case, msg)
         ctx.violations.append((bucket, path))
-        print(f"  bucket {bucket} x{e['count']}: {msg}"[:800])
+        print(f"  bucket {bucket} x{e['count']}: {msg}"[:1500])
 
 
 def write_evidence(ctx: RunCtx, wall: float) -> None:
